@@ -411,41 +411,6 @@ func vfC01Run(t *testing.T, dir string, c *vfC01Case) (obs []vfC01Obs, firedTota
 	return
 }
 
-// vfC01Expected lists the records ground truth allows in the answer section, and the subset that
-// must be present (the final RRset).
-func vfC01Expected(g vfworld.GTruth, qtype uint16) (allowed map[string]uint32, required []string) {
-	allowed = map[string]uint32{}
-	for _, s := range g.Steps {
-		switch s.Type {
-		case dns.TypeCNAME:
-			for _, r := range s.Zone.RRset(s.Owner, dns.TypeCNAME) {
-				c := dns.Copy(r)
-				c.Header().Name = s.Name
-				allowed[vfNormRR(c)] = r.Header().Ttl
-			}
-		case dns.TypeDNAME:
-			for _, r := range s.Zone.RRset(s.Owner, dns.TypeDNAME) {
-				allowed[vfNormRR(r)] = r.Header().Ttl
-				allowed[vfNormRR(&dns.CNAME{Hdr: dns.RR_Header{Name: s.Name, Rrtype: dns.TypeCNAME, Class: dns.ClassINET}, Target: s.Target})] = r.Header().Ttl
-			}
-		}
-	}
-	if g.Out.Kind == "answer" && !g.Out.CNAME && !g.Loop {
-		owner := g.Name
-		if g.Out.Wildcard {
-			owner = g.Out.Source
-		}
-		for _, r := range g.Zone.RRset(owner, qtype) {
-			c := dns.Copy(r)
-			c.Header().Name = g.Name
-			k := vfNormRR(c)
-			allowed[k] = r.Header().Ttl
-			required = append(required, k)
-		}
-	}
-	return
-}
-
 // vfC01PathZones lists the zones a correct resolution of the question consults.
 func vfC01PathZones(w *vfworld.World, g vfworld.GTruth, qname string) map[string]bool {
 	out := map[string]bool{}
@@ -635,7 +600,7 @@ func vfC01Judge(c *vfC01Case, st vfC01Step, o vfC01Obs, tamperedBefore bool) (st
 			return fmt.Sprintf("rcode %s, the signed zones say %s (%+v)", dns.RcodeToString[m.Rcode], dns.RcodeToString[wantRcode], g.Out), cls
 		}
 	}
-	allowed, required := vfC01Expected(g, st.Qtype)
+	allowed, required := vfExpectedAnswer(g, st.Qtype)
 	got := map[string]bool{}
 	for _, rr := range m.Answer {
 		if rr.Header().Rrtype == dns.TypeRRSIG {
